@@ -184,6 +184,57 @@ def feed_resp(method, chunks, closed):
     return (out, tail, pend)
 
 
+def feed_resp_seq(method, streams):
+    """one clienting.Respondent over a SEQUENCE of connections, the way Client.service drives it when an event stream is
+    re-requested: per connection the reads (parse after each), then the far side closes (respondent.close(), parse),
+    then the reconnect: serviceResponse has called makeParser() when the message ended, transmit() calls reinit().
+    The receive buffer is the connector's and survives the reconnect.  -> per connection ([results], tail)"""
+    from hio.core.http import clienting
+    msg = bytearray()
+    r = clienting.Respondent(msg=msg, method=method)
+    out = []
+    for frags in streams:
+        res = []
+        state = {"go": True, "esc": None}
+
+        def drive():
+            while state["go"]:
+                try:
+                    r.parse()
+                except Exception as ex:   # noqa
+                    state["esc"] = type(ex).__name__
+                    state["go"] = False
+                    return
+                if not r.ended:
+                    return
+                res.append(_resp_result(r))
+                keep = (not r.errored) and r.persisted
+                r.makeParser()                # Client.serviceResponse: set up for next time
+                if keep:
+                    r.reinit(method=method)   # next request on the same connection
+                else:
+                    state["go"] = False       # this connection is finished
+
+        for c in frags:
+            msg.extend(c)
+            drive()
+        if state["go"]:
+            r.close()
+            drive()
+        if state["esc"]:
+            out.append((res, ("escaped", state["esc"])))
+            break
+        # events delivered on this connection that are not part of an ended ok message (the queue is the client's output)
+        extra = [(U8(e['id']), U8(e['name']), U8(e['data'])) for e in r.events]
+        r.events.clear()
+        if res and res[-1][0] == "err":
+            out.append((res, ("idle", None, extra)))   # what an errored parse leaves in the buffer is not observed
+        else:
+            out.append((res, ("stuck" if r.started else "idle", bytes(msg), extra)))
+        r.reinit(method=method)               # Client.transmit on the new connection
+    return out
+
+
 def feed_sse(chunks):
     """httping.EventSource on its own bytearray"""
     from hio.core.http import httping
@@ -422,7 +473,7 @@ def run_client(frags, close_after, scheme="http", redirectable=True, cycles=None
 # --------------------------------------------------------------------------------------------------------------
 # WHATWG event stream interpretation (HTML Living Standard §9.2.6), transcribed independently of hio
 
-def whatwg_events(stream, eof_cr_pending=True):
+def whatwg_events(stream, eof_cr_pending=True, want_set=False):
     """-> (events [(lastEventId, type, data)], last event ID buffer, retry or None) for the bytes received so far.
     Lines are ended by CRLF, LF or CR; an unterminated last line is not processed (stream may continue).
     A CR that is the very last byte may still be the first half of a CRLF: eof_cr_pending keeps it unprocessed."""
@@ -454,6 +505,7 @@ def whatwg_events(stream, eof_cr_pending=True):
     data = []
     etype = ""
     leid = ""
+    idset = False
     retry = None
     for line in lines:
         if line == "":
@@ -474,9 +526,13 @@ def whatwg_events(stream, eof_cr_pending=True):
         elif field == "id":
             if "\0" not in value:
                 leid = value
+                idset = True
         elif field == "retry":
             if value and all(c in "0123456789" for c in value) and len(value) <= 4300:
                 retry = int(value)      # (a reconnection time of more than 4300 digits is beyond CPython's int(); ignored)
+    if want_set:
+        return ([(a.encode('utf-8'), b.encode('utf-8'), c.encode('utf-8')) for a, b, c in events],
+                leid.encode('utf-8') if idset else None, retry)
     return ([(a.encode('utf-8'), b.encode('utf-8'), c.encode('utf-8')) for a, b, c in events], leid.encode('utf-8'), retry)
 
 
@@ -768,6 +824,9 @@ def mutate_bytes(rng, data, k=None):
 #   ("resp", head, data, cuts, closed, expect|None)   clienting.Respondent (+ far side closing)
 #   ("sse",  stream, cuts)                            httping.EventSource alone
 #   ("sser", mode, stream, sizes, cuts)               event stream inside a response: mode close | chunked
+#   ("sseq", ((mode, stream, sizes, drop, cuts), ...)) a SEQUENCE of event-stream responses through one Respondent: each is
+#                                                     the sser wire cut off after `drop` bytes (None = complete), read in
+#                                                     the partition `cuts`, then the connection drops and the client reconnects
 #   ("chunks", data, cuts)                            httping.parseChunk in a loop
 #   ("enc",  body, sizes, exts, trailers, cuts)       chunked coding built from the literals, decoded by parseChunk
 #   ("pack", (payload, ...), cuts)                    httping.packChunk of each payload + packChunk(b""), decoded by parseChunk
@@ -808,8 +867,34 @@ def sser_wire(mode, stream, sizes):
     return head + b"\r\n" + stream
 
 
+def sseq_wires(case):
+    out = []
+    for mode, stream, sizes, drop, cuts in case[1]:
+        w = sser_wire(mode, stream, sizes)
+        out.append(w if drop is None else w[:drop])
+    return out
+
+
+def sseq_frags(case):
+    return [split_at(w, st[4]) for w, st in zip(sseq_wires(case), case[1])]
+
+
+def chunk_boundaries(stream, sizes):
+    """offsets in sser_wire('chunked', stream, sizes) that fall right after a complete chunk (or the head)"""
+    head = len(sser_wire("chunked", b"", ())) - len(enc_wire(b"", (), [], [])[0])
+    offs = [head]
+    _, chunks = enc_wire(stream, sizes, [], [])
+    pos = head
+    for c in chunks:
+        pos += len(b"%x" % len(c)) + 2 + len(c) + 2
+        offs.append(pos)
+    return offs
+
+
 def case_data(case):
     k = case[0]
+    if k == "sseq":
+        return b"".join(sseq_wires(case))
     if k in ("req", "sse", "chunks"):
         return case[1]
     if k == "resp":
@@ -855,6 +940,8 @@ def run_case(case):
     if k == "sse":
         fr = frags_of(case)
         return (feed_sse(fr), feed_sse([case[1]]))
+    if k == "sseq":
+        return (feed_resp_seq("GET", sseq_frags(case)), feed_resp_seq("GET", [[w] for w in sseq_wires(case)]))
     if k == "pack":
         d = case_data(case)
         return (d, feed_chunks(split_at(d, case[2])), feed_chunks([d]))
@@ -887,6 +974,8 @@ def request_of(case):
         return ("resp", False, frags_of(case), case[1] == "close")
     if k == "sse":
         return ("sse", frags_of(case))
+    if k == "sseq":
+        return ("respseq", False, sseq_frags(case))
     if k == "pack":
         return ("pack", list(case[1]), list(case[2]))      # the model encodes the pieces itself (packAll)
     if k == "wsgi":
@@ -964,6 +1053,24 @@ def shrink_case(case):
         for i in range(len(stream)):
             s2 = stream[:i] + stream[i + 1:]
             yield (k, mode, s2, sizes, tuple(x for x in cuts if x < len(sser_wire(mode, s2, sizes))))
+    elif k == "sseq":
+        sts = case[1]
+        for i in range(len(sts)):
+            if len(sts) > 1:
+                yield (k, sts[:i] + sts[i + 1:])
+        for i, (mode, stream, sizes, drop, cuts) in enumerate(sts):
+            if cuts:
+                yield (k, sts[:i] + ((mode, stream, sizes, drop, ()),) + sts[i + 1:])
+            if sizes and mode == "close":
+                yield (k, sts[:i] + ((mode, stream, (), drop, ()),) + sts[i + 1:])
+            if mode == "close":
+                w = sser_wire(mode, stream, sizes)
+                hl = len(w) - len(stream)
+                keep = len(stream) if drop is None else max(0, drop - hl)
+                for j in range(len(stream)):
+                    s2 = stream[:j] + stream[j + 1:]
+                    d2 = None if drop is None else hl + (keep - 1 if j < keep else keep)
+                    yield (k, sts[:i] + ((mode, s2, sizes, d2, ()),) + sts[i + 1:])
     elif k == "enc":
         _, body, sizes, exts, trailers, cuts = case
         if cuts:
